@@ -690,12 +690,14 @@ def make_handle_driver(sftpd):
                 self.problems.append(("handle-close-fails", "close() failed: %s" % (box[0].value,)))
             else:
                 up = self.parent.uploaded.get(u"f")
-                if not self.wrote:
-                    # the handle only commits when writeChunk was called: a size change alone is not uploaded
-                    if up is None and bytes(self.ref.b) != self.orig:
-                        self.ck.observe("size-change-without-write-not-uploaded-at-close")
-                    self.ck.skip("close-without-any-write")
+                if not self.wrote and bytes(self.ref.b) == self.orig:
+                    # nothing changed: the handle need not upload anything
+                    self.ck.skip("close-without-any-change")
+                    if up is not None and up != self.orig:
+                        self.problems.append(("handle-uploaded-differs-without-any-change", "uploaded %r" % (up[:24],)))
                 else:
+                    if not self.wrote:
+                        self.ck.hit("size-change-without-write-committed-at-close")
                     self.ck.mon("uploaded-contents-oracle")
                     if up is None:
                         self.problems.append(("handle-nothing-uploaded", "close() succeeded, nothing was uploaded"))
@@ -911,3 +913,4 @@ def run(ck):
 #  no download_done("size changed") in set_current_size          -> MISSED: not observable under the class contract
 #        (the file handle calls download_done itself when the download Deferred fires)
 #  extension zeros not recorded as an overwrite                  -> MISSED: equivalent (always beyond download_size)
+#  seeded/C39-6 (GeneralSFTPFile.setAttrs: `if size:` drops a truncation to exactly 0)  -> handle-size-differs-from-reference / handle read + uploaded contents differ (handle family)  CAUGHT
